@@ -3,10 +3,10 @@ import re
 from tools import common as C, wire
 from tools.gen import lines as L
 
-LEAN_MODULES = ["SCP.C16", "SCP.Lex"]
+LEAN_MODULES = ["SCP.C16", "SCP.Lex", "SCP.RegexLint"]
 THEOREMS = ["SCP.C16." + t for t in """lowerEq_congr_left tokFieldCompare_case tokEq_case infoEq_case findMatch_case readCurrency_case
 infoEqTok_case matchesAt_case findLocation_case varKey_case untyped_skipped findMatch_offsets replaceRange_tokens""".split()] + \
-    ["SCP.Lex.lex_render", "SCP.Lex.lex_spacing_irrelevant", "SCP.Lex.comment_irrelevant"]
+    ["SCP.Lex.lex_render", "SCP.Lex.lex_spacing_irrelevant", "SCP.Lex.comment_irrelevant", "SCP.RegexLint.gen_blank_runs_unbounded"]
 RULE = ("base = every evaluable line / short program of the shared generators (arithmetic, money, percent phrases, dates, durations, times with "
         "zones, units, based numbers, unix, magnitude suffix + currency word, variables over 2-3 lines, variables assigned twice); rewritings: (1) 1-3 extra blanks at every existing blank, around "
         "operator characters and at both ends; (2) an appended '# comment' from a hostile pool (month names, numbers, atoms, '=', currency "
